@@ -142,6 +142,26 @@ def r2_shared_state(rule, root=None):
         rule.bad("mmapwriter|owner", "MmapWriter.mmap must be an owned Mmap, found %s" % f.get("mmap"), A.where(MMAP, st))
 
 
+def r1c_mt_precondition(rule, root=None):
+    """build_inner_mt unwraps the (parent, slot) index of every task cell; only cells created by its split loop
+    have one, so the loop must run at least once for every input that reaches the function"""
+    m = A.find_fn(OCT, "build_inner_mt", self_ty="Octree", root=root)
+    b = A.find_fn(OCT, "build_inner", self_ty="Octree", root=root)
+    unwraps = [c for c in A.find(m["body"], "MethodCall") if c["method"] == "unwrap" and txt(c["recv"]).endswith(".cell.index")]
+    t = txt(m["body"])
+    loop_runs = "whiletodo.len()<target_count" in t and "lettarget_count=8usize.pow(u32::from(settings.depth)).min((threads.thread_count()*10));" in t
+    ifs = [i for i in A.find(b["body"], "If") if "build_inner_mt" in txt(i["then"])]
+    guard = txt(ifs[0]["cond"]) if ifs else ""
+    if not unwraps:
+        rule.ok("build_inner_mt does not assume that every task cell has a parent slot", file=OCT, line=m["ln"])
+    elif "settings.depth>0" in guard or "settings.depth>=1" in guard or "settings.depth!=0" in guard:
+        rule.ok("the pooled path is taken only for depth > 0, where the split loop creates every task cell (so its parent slot exists)", file=OCT, line=ifs[0]["ln"])
+    else:
+        rule.bad("mesh|mt-depth0", "build_inner_mt unwraps `cell.index` of every task, but with depth 0 its split loop (while todo.len() < 8^depth.min(..)) never runs and the only task is the root cell, whose index is None: meshing at depth 0 panics with a thread pool and works without one. Guard the pooled path with depth > 0 (found `%s`)" % guard, A.where(b, ifs[0] if ifs else None))
+    if not loop_runs:
+        rule.skip("split loop shape", "target_count / while loop reshaped")
+
+
 def r3_per_thread_state(rule, root=None):
     m = A.find_fn(OCT, "build_inner_mt", self_ty="Octree", root=root)
     t = txt(m["body"])
@@ -168,9 +188,13 @@ def r3_per_thread_state(rule, root=None):
 def run(ctx):
     r = ctx.rule("R1", "an abort originates only from the cancel token (or a child's abort) and turns the whole result into None", 16)
     ctx.guarded(r, r1_cancellation)
+    r = ctx.rule("R1c", "the pooled meshing path is reached only with inputs for which every task has a parent slot", 1)
+    ctx.guarded(r, r1c_mt_precondition)
     r = ctx.rule("R2", "shared-state inventory: vetted unsafe Send/Sync, only the cancel flag is interiorly mutable, JIT handles immutable", 14)
     ctx.guarded(r, r2_shared_state)
     r = ctx.rule("R3", "per-thread state comes from map_init; results are keyed by tile / cell, not by arrival", 6)
     ctx.guarded(r, r3_per_thread_state)
+    r = ctx.rule("R3b", "pooled and serial image post-processing chunk the buffer identically", 3)
+    ctx.guarded(r, R.r_effect_siblings)
     r = ctx.rule("R4", "multithreaded merge offsets (= C08.R2)", 12)
     ctx.guarded(r, r2_merge_offsets)
